@@ -601,6 +601,80 @@ func rulesTrieDelete(c *Ctx, r *Report, e *effEngine) {
 			keyOK = true
 		}
 	}
+	if !keyOK {
+		// the key kept beside the node in the walk's stack: stack[i] = link{node, b[i]} … delete(link.node.m, link.key)
+		isArgByte := func(v ssa.Value) bool {
+			e := sy.expr(v).String()
+			for i, p := range f.Params {
+				if sl, ok := p.Type().Underlying().(*types.Slice); ok && types.Identical(sl.Elem(), types.Typ[types.Byte]) && strings.HasPrefix(e, fmt.Sprintf("load(P%d[", i)) {
+					return true
+				}
+			}
+			return false
+		}
+		// the field and the slice the key is read from
+		var stack ssa.Value
+		field := -1
+		if ld, ok := del.Call.Args[1].(*ssa.UnOp); ok && ld.Op == token.MUL {
+			if fa, ok := ld.X.(*ssa.FieldAddr); ok {
+				switch x := fa.X.(type) {
+				case *ssa.Alloc:
+					if el, ok := cellValue(x).(*ssa.UnOp); ok && el.Op == token.MUL {
+						if ia, ok := el.X.(*ssa.IndexAddr); ok {
+							stack, field = ia.X, fa.Field
+						}
+					}
+				case *ssa.IndexAddr:
+					stack, field = x.X, fa.Field
+				}
+			}
+		}
+		if _, isMk := stack.(*ssa.MakeSlice); isMk && field >= 0 {
+			nStores, nOK := 0, 0
+			instrs(f, func(in ssa.Instruction) {
+				st, ok := in.(*ssa.Store)
+				if !ok {
+					return
+				}
+				switch ad := st.Addr.(type) {
+				case *ssa.IndexAddr:
+					if ad.X != stack {
+						return
+					}
+					nStores++
+					// the element stored whole: a literal whose field is a byte of the argument
+					if ld, ok := st.Val.(*ssa.UnOp); ok && ld.Op == token.MUL {
+						if lit, ok := ld.X.(*ssa.Alloc); ok {
+							n, good := 0, 0
+							for _, ref := range *lit.Referrers() {
+								if fa, ok := ref.(*ssa.FieldAddr); ok && fa.Field == field {
+									for _, r2 := range *fa.Referrers() {
+										if s2, ok := r2.(*ssa.Store); ok && s2.Addr == ssa.Value(fa) {
+											n++
+											if isArgByte(s2.Val) {
+												good++
+											}
+										}
+									}
+								}
+							}
+							if n == 1 && good == 1 {
+								nOK++
+							}
+						}
+					}
+				case *ssa.FieldAddr:
+					if ia, ok := ad.X.(*ssa.IndexAddr); ok && ia.X == stack && ad.Field == field {
+						nStores++
+						if isArgByte(st.Val) {
+							nOK++
+						}
+					}
+				}
+			})
+			keyOK = nStores > 0 && nStores == nOK
+		}
+	}
 	r.check(keyOK, "DEL-PRUNE", where, "deleted edge", c.pos(del.Pos()), "the removed edge is labelled with a byte of the argument", "the removed edge is not labelled with b[i]")
 }
 
